@@ -96,7 +96,7 @@ func (m *Manager) IncreaseTrackedResource(queuePath, applicationID string, usage
 	// since we check headroom before an increase this should never result in a call...
 	// some tests might not go through a scheduling cycle so leave this
 	if !userTracker.hasGroupForApp(applicationID) {
-		m.ensureGroupTrackerForApp(queuePath, applicationID, user)
+		m.ensureGroupTrackerForApp(userTracker, queuePath, applicationID, user)
 	}
 	userTracker.increaseTrackedResource(queuePath, applicationID, usage)
 	appGroup := userTracker.getGroupForApp(applicationID)
@@ -228,8 +228,9 @@ func (m *Manager) GetGroupTracker(group string) *GroupTracker {
 
 // ensureGroupTrackerForApp creates a group tracker to user and application link.
 // The userTracker MUST have been created and the application SHOULD not be tracked yet for the user.
-func (m *Manager) ensureGroupTrackerForApp(queuePath, applicationID string, user security.UserGroup) {
-	userTracker := m.GetUserTracker(user.User)
+// The caller passes in the userTracker it works on: looking it up again can return nil as the tracker can be removed
+// from the manager at any time, when the last application of the user is removed.
+func (m *Manager) ensureGroupTrackerForApp(userTracker *UserTracker, queuePath, applicationID string, user security.UserGroup) {
 	// sanity check: caller should not have called this function if the application is already tracked
 	if userTracker.hasGroupForApp(applicationID) {
 		return
@@ -653,7 +654,7 @@ func (m *Manager) Headroom(queuePath, applicationID string, user security.UserGr
 	userHeadroom := userTracker.headroom(hierarchy)
 	// make sure the user has a groupTracker for this application, if not yet there add it
 	if !userTracker.hasGroupForApp(applicationID) {
-		m.ensureGroupTrackerForApp(queuePath, applicationID, user)
+		m.ensureGroupTrackerForApp(userTracker, queuePath, applicationID, user)
 	}
 	// check if this application now has group tracking, if not we're done
 	appGroup := userTracker.getGroupForApp(applicationID)
@@ -675,7 +676,7 @@ func (m *Manager) CanRunApp(queuePath, applicationID string, user security.UserG
 	userCanRunApp := userTracker.canRunApp(hierarchy, applicationID)
 	// make sure the user has a groupTracker for this application, if not yet there add it
 	if !userTracker.hasGroupForApp(applicationID) {
-		m.ensureGroupTrackerForApp(queuePath, applicationID, user)
+		m.ensureGroupTrackerForApp(userTracker, queuePath, applicationID, user)
 	}
 	// check if this application now has group tracking, if not we're done
 	appGroup := userTracker.getGroupForApp(applicationID)
